@@ -185,6 +185,8 @@ func sysOfSpan(s []span) System {
 // Union replaces the receiver with the set union of the receiver and the argument.
 func (s *Set) Union(t Set) error {
 	var err error
+	// Canonicalization works in place; do not disturb a Constraint sharing the spans.
+	s.span = append([]span(nil), s.span...)
 	s.span, err = canon(append(s.span, t.span...))
 	return err
 }
